@@ -24,6 +24,7 @@ type Failure struct {
 	Race    *RaceResult
 	File    string
 	NDecls  int // declarations / axioms that existed when the query was made (0: all)
+	Weak    []string // why this failure may only be a missing contract (see State.Weak)
 }
 
 type Oblig struct {
@@ -474,7 +475,7 @@ func (u *Unit) Prove(st *State, name, class string, tags []string, pos token.Pos
 		st.Assume(goal)
 		return true
 	}
-	f := &Failure{Asserts: append(append([]string(nil), st.PCs...), Not(goal).String()), Goal: goal.String(), Result: r, Trace: append([]string(nil), st.Trace...), NDecls: len(u.decls)}
+	f := &Failure{Asserts: append(append([]string(nil), st.PCs...), Not(goal).String()), Goal: goal.String(), Result: r, Trace: append([]string(nil), st.Trace...), NDecls: len(u.decls), Weak: st.Weak}
 	switch class {
 	case "bounds", "nilmap", "div0", "typeassert", "makeslice", "chan-closed":
 		// the real program panics here: what follows on this path is not a reachable
